@@ -389,6 +389,9 @@ func (s *InMemoryStore) FetchTopicConfig(ctx context.Context, topic string) (*me
 		return nil, ctx.Err()
 	default:
 	}
+	if topic == "" {
+		return nil, ErrInvalidTopic
+	}
 	s.mu.RLock()
 	defer s.mu.RUnlock()
 	for _, entry := range s.state.Topics {
@@ -501,7 +504,31 @@ func (s *InMemoryStore) DeleteTopic(ctx context.Context, name string) error {
 			delete(s.offsets, key)
 		}
 	}
+	// Like the etcd store, drop the topic's configuration and committed
+	// consumer offsets so a topic re-created under the same name starts clean.
+	delete(s.topicConfigs, name)
+	for key := range s.consumerOffsets {
+		if consumerKeyTopic(key) == name {
+			delete(s.consumerOffsets, key)
+			delete(s.consumerMeta, key)
+		}
+	}
 	return nil
+}
+
+// consumerKeyTopic extracts the topic from a consumerKey ("group:topic:partition").
+// Topic names never contain ':' (see ValidTopicName), the group may.
+func consumerKeyTopic(key string) string {
+	last := strings.LastIndex(key, ":")
+	if last < 0 {
+		return ""
+	}
+	rest := key[:last]
+	sep := strings.LastIndex(rest, ":")
+	if sep < 0 {
+		return ""
+	}
+	return rest[sep+1:]
 }
 
 // CommitConsumerOffset implements Store.CommitConsumerOffset.
